@@ -460,6 +460,31 @@ pub fn reduce(args: &Args) -> i32 {
         }
     }
     println!("reduced failure: {}", fails(&case).unwrap_or_default().chars().take(700).collect::<String>());
+    // which ingredients are necessary: re-run the reduced case with one of them changed
+    {
+        let mk = |schema: Arc<Schema>, batches: Vec<RecordBatch>, version, cache| Case { version, schema, batches, opts_cache: cache, opts_maxp: case.opts_maxp, keep: case.keep, flavor: case.flavor };
+        let fresh: Vec<RecordBatch> = case.batches.iter().map(|b| {
+            let cols: Vec<ArrayRef> = b.columns().iter().map(|c| { let idx = UInt64Array::from((0..c.len() as u64).collect::<Vec<_>>()); arrow_select::take::take(c.as_ref(), &idx, None).unwrap() }).collect();
+            RecordBatch::try_new(case.schema.clone(), cols).unwrap()
+        }).collect();
+        for b in &case.batches { for c in b.columns() { let d = c.to_data(); println!("array: len {} offset {} null buffer {} null_count {}", d.len(), d.offset(), d.nulls().is_some(), d.null_count()); } }
+        println!("variation fresh copy of the arrays (offset 0): {}", fails(&mk(case.schema.clone(), fresh.clone(), case.version, case.opts_cache)).map(|e| e.chars().take(90).collect::<String>()).unwrap_or("ok".into()));
+        let plain = Arc::new(Schema::new(case.schema.fields().iter().map(|f| f.as_ref().clone().with_metadata(Default::default())).collect::<Vec<Field>>()));
+        let pb: Vec<RecordBatch> = case.batches.iter().map(|b| RecordBatch::try_new(plain.clone(), b.columns().to_vec()).unwrap()).collect();
+        println!("variation no field metadata: {}", fails(&mk(plain, pb, case.version, case.opts_cache)).map(|e| e.chars().take(90).collect::<String>()).unwrap_or("ok".into()));
+        println!("variation data_cache_bytes None: {}", fails(&mk(case.schema.clone(), case.batches.clone(), case.version, None)).map(|e| e.chars().take(90).collect::<String>()).unwrap_or("ok".into()));
+        println!("variation data_cache_bytes 100000: {}", fails(&mk(case.schema.clone(), case.batches.clone(), case.version, Some(100000))).map(|e| e.chars().take(90).collect::<String>()).unwrap_or("ok".into()));
+        for v in [LanceFileVersion::V2_1, LanceFileVersion::V2_2] {
+            println!("variation version {v}: {}", fails(&mk(case.schema.clone(), case.batches.clone(), v, case.opts_cache)).map(|e| e.chars().take(90).collect::<String>()).unwrap_or("ok".into()));
+        }
+        let nn = Arc::new(Schema::new(case.schema.fields().iter().map(|f| f.as_ref().clone().with_nullable(false)).collect::<Vec<Field>>()));
+        if let Ok(nb) = case.batches.iter().map(|b| RecordBatch::try_new(nn.clone(), b.columns().to_vec())).collect::<Result<Vec<_>, _>>() {
+            println!("variation non-nullable field: {}", fails(&mk(nn, nb, case.version, case.opts_cache)).map(|e| e.chars().take(90).collect::<String>()).unwrap_or("ok".into()));
+        }
+        // more rows of the same value
+        let more: Vec<RecordBatch> = vec![arrow_select::concat::concat_batches(&case.schema, &[fresh.clone(), fresh.clone(), fresh.clone()].concat()).unwrap()];
+        println!("variation three copies of the rows in one batch: {}", fails(&mk(case.schema.clone(), more, case.version, case.opts_cache)).map(|e| e.chars().take(90).collect::<String>()).unwrap_or("ok".into()));
+    }
     println!("{}", serde_json::to_string_pretty(&case.describe()).unwrap());
     println!("features: {}", Features::of(&case).describe());
     for b in &case.batches {
